@@ -180,6 +180,8 @@ class Interp:
         self.depth = 0
         self.max_depth = self.cfg.get('max_depth', 600)
         self.call_stack = []
+        self.cur_guard = True
+        self.prov = None          # provenance mode (C13): {'allocs': {var name: Bool var}, 'inserted': {var name: guard}}
         self.hooks = {}           # name -> python callable overriding a crate function (harness stubs)
 
     # --------------------------------------------------------------------------------------- utilities
@@ -1044,6 +1046,7 @@ class Interp:
                     bb = t.d
                     continue
                 if k == 'call':
+                    self.cur_guard = guard
                     res = self.do_call(fr, t)
                     nxt = t.d
                     conts = []
